@@ -1089,12 +1089,14 @@ impl State {
                     (Some(a), Some(b)) => (a, b),
                     _ => return "bad-op".into(),
                 };
-                let mut plan: Vec<(u32, usize)> = vec![];
+                // `hbh:len[:ms]` - the optional third field lets (virtual) time pass before that send, so that whatever
+                // the reader can do with what has arrived happens first
+                let mut plan: Vec<(u32, usize, u64)> = vec![];
                 if *sends != "-" {
                     for t in sends.split(',') {
                         let mut it = t.split(':');
                         match (it.next().and_then(|x| x.parse().ok()), it.next().and_then(|x| x.parse().ok())) {
-                            (Some(h), Some(l)) => plan.push((h, l)),
+                            (Some(h), Some(l)) => plan.push((h, l, it.next().and_then(|x| x.parse().ok()).unwrap_or(0))),
                             _ => return "bad-op".into(),
                         }
                     }
@@ -1121,7 +1123,10 @@ impl State {
                     };
                     let count_reg = |u: &Arc<std::sync::Mutex<Vec<String>>>| u.lock().unwrap().iter().filter(|e| e.starts_with("reg:")).count();
                     let mut futs = vec![];
-                    for (i, (h, len)) in plan.iter().enumerate() {
+                    for (i, (h, len, wait)) in plan.iter().enumerate() {
+                        if *wait > 0 {
+                            tokio::time::sleep(std::time::Duration::from_millis(*wait)).await;
+                        }
                         sync_hooks(&ulog);
                         ulog.lock().unwrap().push(format!("sb:{}", i));
                         let before = count_reg(&ulog);
